@@ -9,7 +9,7 @@ Import ListNotations.
 
 Record vfile := mkV {
   vf_path : N;
-  vf_imports : list (N * bool);          (* f.Imports(): path, IsPublic, in declaration order *)
+  vf_imports : list (N * bool * bool);   (* f.Imports(): path, IsPublic, IsWeak, in declaration order *)
   vf_names : list N;                     (* keys of the descriptor map of the file *)
   vf_exts : list (N * Z * N)             (* extendee, tag, extension name; order of findExtension *)
 }.
@@ -45,10 +45,10 @@ Section ResolveInFile.
         match fn f with
         | Some e => VFound (vf_path f) e                              (* found it *)
         | None =>
-          (fix imports_loop (imps : list (N * bool)) : vres :=
+          (fix imports_loop (imps : list (N * bool * bool)) : vres :=
              match imps with
              | [] => VNotFound
-             | (p, isPublic) :: r =>
+             | (p, isPublic, _) :: r =>                                (* IsWeak is never read by the walk *)
                if publicImportsOnly && negb isPublic then imports_loop r
                else match find_file G p with
                     | None => VPanic
@@ -84,12 +84,13 @@ Definition resolver_find (G : graph) (f : vfile) (q : query) : vres :=
   visit G (query_fn q) (S (length G)) false [] f.
 
 (* ---- specification: the visible set ----
-   visible f = the file itself, its direct imports (public or not), and every file reachable from
-   a direct import through public imports only *)
+   visible f = the file itself, its direct imports (plain, public or weak alike), and every file
+   reachable from a direct import through public imports only (a public import counts whatever its
+   weak flag says; descriptors can carry both flags) *)
 Definition direct_import (G : graph) (a d : N) : Prop :=
-  exists f pub, find_file G a = Some f /\ In (d, pub) (vf_imports f).
+  exists f pub weak, find_file G a = Some f /\ In (d, pub, weak) (vf_imports f).
 Definition pub_edge (G : graph) (a b : N) : Prop :=
-  exists f, find_file G a = Some f /\ In (b, true) (vf_imports f).
+  exists f weak, find_file G a = Some f /\ In (b, true, weak) (vf_imports f).
 
 (* paths of public imports that avoid the files in S (S = [] gives the public closure) *)
 Inductive reach (G : graph) (S : list N) : N -> N -> Prop :=
@@ -107,8 +108,15 @@ Fixpoint nodupN (l : list N) : bool :=
   match l with [] => true | x :: r => negb (memN x r) && nodupN r end.
 Definition graph_ok (G : graph) : bool :=
   nodupN (map vf_path G) &&
-  forallb (fun f => forallb (fun pi => match find_file G (fst pi) with Some _ => true | None => false end)
+  forallb (fun f => forallb (fun pi => match find_file G (fst (fst pi)) with Some _ => true | None => false end)
                             (vf_imports f)) G.
+
+(* the same graph with every IsWeak flag cleared (used to state that the flag is irrelevant) *)
+Definition unweak_imps (l : list (N * bool * bool)) : list (N * bool * bool) :=
+  map (fun i => (fst (fst i), snd (fst i), false)) l.
+Definition unweak_file (f : vfile) : vfile :=
+  mkV (vf_path f) (unweak_imps (vf_imports f)) (vf_names f) (vf_exts f).
+Definition unweak (G : graph) : graph := map unweak_file G.
 
 (* ---- correspondence ---- *)
 From PV Require Import Common.Corr.
